@@ -220,7 +220,8 @@ class CacheWriteMixin:
     caching_cases = (True,)
     modes = ('sound',)
     trusted_keys = ("the keys of an operator's caches are ids of variables of its operands: right_cache of the right operand's "
-                    "variables (LogicalOperator.__post_init__), _cache_ of both operands' (BinaryOperator.__post_init__)",)
+                    "variables, _cache_ of both operands' (proved separately: contracts CacheKeysRight / CacheKeysOwn on the "
+                    "two __post_init__ methods)",)
 
     def setup(self, eng):
         sts = super().setup(eng)
@@ -305,7 +306,7 @@ CONTRACTS += [ComparatorCacheWrite, ANDCacheWrite, ElseIfCacheWrite]
 
 # ---------------------------------------------------------------------------------------------------------------------
 # C04: the "keyword expression is being evaluated" flag of a variable is scoped to one evaluation
-from eqlvc.interp import State, Outcome, Tup, NEXT, CONTINUE, BREAK, RETURN, RAISE, GENEXIT  # noqa: E402
+from eqlvc.interp import State, Outcome, Tup, Meth, Closure, NEXT, CONTINUE, BREAK, RETURN, RAISE, GENEXIT  # noqa: E402
 from eqlvc.libmodel import LibModel, base_modenv, init_fields  # noqa: E402
 
 
@@ -623,3 +624,167 @@ class UnionNoReplay(LibModel):
 
 
 CONTRACTS += [UnionNoReplay]
+
+
+# ---------------------------------------------------------------------------------------------------------------------
+# C05: what the result caches are keyed by (discharges the assumption CacheWriteMixin.trusted_keys makes)
+from .required import UV, subset  # noqa: E402
+from eqlvc.libmodel import isa, str_const  # noqa: E402,F811
+
+
+class CacheKeysOwn(LibModel):
+    """BinaryOperator.__post_init__: the operator's own result cache (_cache_) is keyed by variables of its two operands
+    only, and by EVERY variable of them that is not a literal (a variable that is left out would make an entry claim
+    coverage - and a truth value - for bindings of that variable that were never evaluated).
+    Assumed: HashedIterable.union / filter are set union / subset-by-predicate over wrapped values (hashed_data, 2-line
+    bodies); _update_children_ returns the operands it was given (wrapping constants in a Literal)."""
+    qual = 'symbolic:BinaryOperator.__post_init__'
+    cls = 'BinaryOperator'
+    props = ('C05', 'C16')
+    modes = ('sound',)
+    which = '_cache_'
+    trusted = ("HashedIterable.union / filter: set union, subset by the given predicate (hashed_data.py)",
+               "SymbolicExpression._update_children_ returns the operands it was given")
+
+    def modenv(self):
+        env = base_modenv()
+        env['super'] = C(Ref('func', 'super'))
+        return env
+
+    def setup(self, eng):
+        st = State()
+        st.fields = init_fields()
+        self.n = z3.Const('self', Z.Node)
+        st.locals['self'] = ZV(self.n, 'node')
+        st.ghost['self'] = self.n
+        st.ghost['keys'] = {}
+        return [st]
+
+    def vars_of_operands(self):
+        l, r = Z.f_left(self.n), Z.f_right(self.n)
+        return z3.Map(Z.OR_D, UV(l), UV(r)) if self.which == '_cache_' else UV(r)
+
+    # ---- super().__post_init__(), _update_children_
+    def call(self, eng, st, f, args, kwargs, node):
+        if isinstance(f, C) and f.v == Ref('func', 'super'):
+            return [(st, Obj('super_proxy'))]
+        if isinstance(f, Meth) and isinstance(f.recv, Obj) and f.recv.kind == 'super_proxy' and f.name == '__post_init__':
+            return [(st, NONE)]
+        if isinstance(f, Meth) and f.name == '_update_children_':
+            return [(st, Tup(list(args)))]
+        return super().call(eng, st, f, args, kwargs, node)
+
+    def getattr(self, eng, st, recv, name):
+        if isinstance(recv, ZV) and recv.ty == 'node' and recv.t.eq(self.n) and name == '_update_children_':
+            return [(st, Meth(recv, name))]
+        if isinstance(recv, Obj) and recv.kind == 'idsetx':
+            return [(st, Meth(recv, name))]
+        if isinstance(recv, Obj) and recv.kind == 'uvelem':
+            if name == 'value':
+                return [(st, ZV(recv.data['node'], 'node'))]
+            if name == 'id_':
+                return [(st, ZV(Z.nid(recv.data['node']), 'int'))]
+        if isinstance(recv, Obj) and recv.kind == 'cache' and name == 'keys':
+            return [(st, st.ghost['keys'].get(recv.data['which'], NONE))]
+        return super().getattr(eng, st, recv, name)
+
+    def setattr(self, eng, st, recv, name, v):
+        if isinstance(recv, ZV) and recv.ty == 'node' and recv.t.eq(self.n) and name in ('left', 'right'):
+            want = Z.f_left(self.n) if name == 'left' else Z.f_right(self.n)
+            eng.oblige(st, f"C05/keys/operand-{name}-stays-what-it-was", z3.BoolVal(isinstance(v, ZV) and v.ty == 'node' and v.t.eq(want)))
+            return [st]
+        if isinstance(recv, Obj) and recv.kind == 'cache' and name == 'keys':
+            st = st.clone()
+            st.ghost['keys'] = {**st.ghost['keys'], recv.data['which']: v}
+            return [st]
+        return super().setattr(eng, st, recv, name, v)
+
+    # ---- sets of wrapped variables: Obj('idsetx', mem = python function id-term -> membership term)
+    def _mem(self, v):
+        if isinstance(v, Obj) and v.kind == 'uniqvars':
+            arr = UV(v.data['of'])
+            return lambda i: z3.Select(arr, i)
+        if isinstance(v, Obj) and v.kind == 'idsetx':
+            return v.data['mem']
+        raise OutOfSubset(f"ids of {v}")
+
+    def obj_uniqvars_union(self, eng, st, recv, args, kwargs, node):
+        a, b = self._mem(recv), self._mem(args[0])
+        return [(st, Obj('idsetx', {'mem': lambda i: z3.Or(a(i), b(i))}))]
+
+    obj_idsetx_union = obj_uniqvars_union
+
+    def obj_uniqvars_filter(self, eng, st, recv, args, kwargs, node):
+        (fn,) = args
+        e = z3.FreshConst(Z.Node, 'elem')
+        outs = self.call_closure(eng, st, fn, [Obj('uvelem', {'node': e})], {}, node) if isinstance(fn, Closure) else None
+        if not outs or len(outs) != 1:
+            raise OutOfSubset("filter predicate", node)
+        st2, r = outs[0]
+        keep = eng.to_z3_bool(eng.truth(st2, r))
+        inner = self._mem(recv)
+        return [(st2, Obj('idsetx', {'mem': lambda i: z3.And(inner(i), z3.substitute(keep, (e, Z.node_of(i))))}))]
+
+    obj_idsetx_filter = obj_uniqvars_filter
+
+    def f_isinstance(self, eng, st, args, kwargs, node):
+        o, c = args
+        if isinstance(o, Obj) and o.kind == 'uvelem':
+            return [(st, C(False))]       # the element is the HashedValue wrapper, never an expression class
+        return super().f_isinstance(eng, st, args, kwargs, node)
+
+    def listcomp(self, eng, st, e):
+        # [v.id_ for v in <set of wrapped variables> if <predicate on v> ...]
+        g = e.generators[0]
+        if len(e.generators) == 1 and isinstance(e.elt, ast.Attribute) and e.elt.attr == 'id_' \
+                and isinstance(e.elt.value, ast.Name) and isinstance(g.target, ast.Name) and e.elt.value.id == g.target.id:
+            outs = []
+            for s2, it in eng.eval(g.iter, st):
+                mem = self._mem(it)
+                if g.ifs:
+                    elem = z3.FreshConst(Z.Node, 'elem')
+                    s3 = s2.clone()
+                    s3.locals[g.target.id] = Obj('uvelem', {'node': elem})
+                    keeps = []
+                    for cond in g.ifs:
+                        n0 = len(s3.pc)
+                        alts = [z3.And(*(list(sk.pc[n0:]) + [eng.to_z3_bool(eng.truth(sk, vk))])) for sk, vk in eng.eval(cond, s3)]
+                        keeps.append(z3.Or(*alts) if alts else z3.BoolVal(False))
+                    keep = z3.And(*keeps)
+                    inner = mem
+                    mem = (lambda inner, keep, elem: (lambda i: z3.And(inner(i), z3.substitute(keep, (elem, Z.node_of(i))))))(inner, keep, elem)
+                outs.append((s2, Obj('keylist', {'mem': mem})))
+            return outs
+        return super().listcomp(eng, st, e)
+
+    def on_exit(self, eng, o):
+        st = o.st
+        if o.sig not in (NEXT, RETURN):
+            eng.oblige(st, "C05/keys/finishes-normally", z3.BoolVal(False))
+            return
+        k = st.ghost['keys'].get(self.which)
+        if not (isinstance(k, Obj) and k.kind == 'keylist'):
+            eng.oblige(st, f"C05/keys/{self.which}-gets-its-keys", z3.BoolVal(False))
+            return
+        K = k.data['mem']
+        Uarr = self.vars_of_operands()
+        i = z3.FreshConst(Z.I, 'any_id')          # an arbitrary id: the clauses are pointwise
+        whose = "the-operands" if self.which == '_cache_' else "the-right-operand"
+        eng.oblige(st, f"C05/keys/{self.which}-is-keyed-by-variables-of-{whose}-only", z3.Implies(K(i), z3.Select(Uarr, i)))
+        eng.oblige(st, f"C05/keys/{self.which}-is-keyed-by-every-variable-of-{whose}-that-is-not-a-literal",
+                   z3.Implies(z3.And(z3.Select(Uarr, i), z3.Not(isa(str_const('Literal'), Z.node_of(i)))), K(i)))
+
+    def signature(self, ob, model):
+        return {}
+
+
+class CacheKeysRight(CacheKeysOwn):
+    """LogicalOperator.__post_init__: the cache of the right operand's results (right_cache) is keyed by variables of the
+    right operand only, and by every one of them that is not a literal."""
+    qual = 'symbolic:LogicalOperator.__post_init__'
+    cls = 'LogicalOperator'
+    which = 'right_cache'
+    props = ('C05', 'C02', 'C18')
+
+
+CONTRACTS += [CacheKeysOwn, CacheKeysRight]
